@@ -169,6 +169,45 @@ def run_odd(params, ch):
             'nontrivial': tuple(sorted((k, str(v)) for k, v in params.items())), 'sample': dict(params, received=[len(d) for _p, d in base]), 'trans': trans}
 
 
+def run_odd_dir(params, ch):
+    """(a) a directory that contains a sub-directory between regular files: push is not recursive -- it may refuse (raise), but whatever
+    reaches the device is filed under its own name with its own bytes, and a normal return means every regular file arrived;
+    (b) a named pipe fed in pieces (short reads before end-of-file): every byte arrives."""
+    M, twin = params['M'], params['twin']
+    s = Session(ch, {'maxdata': M}, twin=twin)
+    try:
+        s.op(('connect',))
+        viol = []
+        kw = {'mtime': 5}
+        if params.get('cb'):
+            kw['cb'] = params['cb']
+        if params['kind'] == 'fifo':
+            pieces = [data_of(z, 20 + i) for i, z in enumerate(params['pieces'])]
+            r = s.op(('push', ('fifo', pieces, 0.05), '/pipe', kw))
+            got = [(x[0], x[3]) for x in s.env.fs.sends]
+            if r != ('ok', None) or got != [(b'/pipe', b''.join(pieces))]:
+                viol.append({'msg': 'push of a named pipe fed in pieces of %r bytes gave %r; the device received %r' % (params['pieces'], r[:2], [(p, len(d)) for p, d in got])})
+        else:
+            files = {}
+            for i, nm in enumerate(params['names']):
+                files[nm] = None if nm.endswith('.d') else data_of(params['size'] + i, 30 + i)
+            r = s.op(('push', ('dir', files, 'elsewhere'), '/dest', kw))
+            regular = {('/dest/%s' % n).encode(): d for n, d in files.items() if d is not None}
+            for x in s.env.fs.sends:
+                if x[0] not in regular:
+                    viol.append({'msg': 'directory push (entries %r) created %r on the device, which is not a regular file of the directory' % (params['names'], x[0])})
+                elif x[3] != regular[x[0]]:
+                    viol.append({'msg': 'directory push (entries %r): %r received %d bytes that are not its content' % (params['names'], x[0], len(x[3]))})
+            if r[0] == 'ok' and sorted(x[0] for x in s.env.fs.sends) != sorted(regular):
+                viol.append({'msg': 'directory push (entries %r) returned normally but the device received only %r' % (params['names'], sorted(x[0] for x in s.env.fs.sends))})
+            if r[0] not in ('ok', 'exc'):
+                viol.append({'msg': 'directory push ended with %r' % (r,)})
+        viol += oracle.base_viol(s, completed=(r[0] == 'ok'))
+        return {'outcome': (r[:2], len(s.env.fs.sends)), 'viol': viol, 'nontrivial': tuple(sorted((k, str(v)) for k, v in params.items())), 'sample': dict(params, result=r[:2]), 'trans': len(s.env.events)}
+    finally:
+        s.finish()
+
+
 def run_reconnect(params, ch):
     M1, M2, size, twin = params['M1'], params['M2'], params['size'], params['twin']
     data = data_of(size)
@@ -276,6 +315,11 @@ def parts(tier):
                     sc.append({'M': M, 'twin': t, 'kind': 'file-grow', 'size': z, 'extra': ex})
     out.append(Part('partly-read-and-growing-sources', sc, run_odd, what='a BytesIO whose read position is not 0 and a file that is appended to while it is pushed, each with no / a counting / a raising '
                     'progress callback: the device receives the same bytes in all three runs', bound='%d cases x 3 callbacks' % len(sc)))
+    sc = [{'kind': 'dir', 'M': 4096, 'twin': t, 'size': 3000, 'names': nm, 'cb': cb} for t in twins for cb in (None, 'count')
+          for nm in (['a', 'b.d', 'c'], ['a.d', 'b', 'c'], ['a', 'b', 'c.d'], ['a', 'b.d', 'c', 'd.d', 'e'])]
+    sc += [{'kind': 'fifo', 'M': M, 'twin': t, 'pieces': pc, 'cb': cb} for t in twins for M in (4096, 1024 * 1024) for pc in ([1000, 1000, 1000], [1, 5000], [2048, 1]) for cb in (None, 'count')]
+    out.append(Part('subdirectories-and-pipes', sc, run_odd_dir, what='directories with a sub-directory between regular files (fixed listing order) and named pipes fed in pieces (short reads before end-of-file)',
+                    bound='%d cases' % len(sc), chunk=1, workers=4))
     sc = [{'M1': a, 'M2': b, 'size': z, 'twin': t, 'close': c} for a in (4096, 65536, 1024 * 1024) for b in (4096, 65536, 1024 * 1024) for z in (100, 70000, 300000) for t in twins for c in (False, True)]
     out.append(Part('reconnect-other-maxdata', sc, run_reconnect, what='push, connect() again (with or without close()) to a device announcing another maxdata, push again',
                     bound='%d cases' % len(sc)))
